@@ -13,5 +13,9 @@ export GOFLAGS=-mod=mod GOPROXY=off GOSUMDB=off
 if ! go build ./... >/dev/null 2>&1; then echo "try_mutant: does not build"; exit 2; fi
 if ! go test -vet=off -count=1 ./... >/tmp/try_mutant_suite.log 2>&1; then echo "try_mutant: existing suite FAILS with the change"; tail -5 /tmp/try_mutant_suite.log; exit 3; fi
 cd /verif
+# what this run writes (replay files, evidence) describes the changed tree: none of it stays
+ls replays > /tmp/try_mutant_replays.before 2>/dev/null
+cleanup_verif() { ls /verif/replays | grep -vxFf /tmp/try_mutant_replays.before | sed 's|^|/verif/replays/|' | xargs -r rm -f; git -C /verif checkout -q -- evidence replays 2>/dev/null; }
+trap 'git -C /repo checkout -- . ; git -C /repo clean -fdq trzsz 2>/dev/null; cleanup_verif' EXIT
 timeout 1500 ./bin/check "$ID" --no-minimise "$@" 2>&1 | grep -E "^(VIOLATION|KNOWN-FINDING|check )" | cut -c1-300 | tail -6
 echo "exit=${PIPESTATUS[0]}"
